@@ -126,7 +126,8 @@ def run(tier):
     # everything with it - after a successful call, a call that failed in the middle, a counting call or a long call (> 4 KiB of text),
     # with the options unchanged or changed in between
     from .. import corpus
-    rep = corpus.representative(rnd, 2)
+    from .. import isa
+    rep = corpus.representative(rnd, 2) + rnd.sample(isa.gen_int_regs(), 4000) + isa.gen_vec_regs(corners_only=True, rnd=rnd, frac=0.0) + isa.gen_mem(False, rnd, per_class=12) + rnd.sample(isa.gen_imm(rnd, False), 3000)
     bymn = {}
     for c in rep:
         t = c["text"]
